@@ -1,6 +1,7 @@
 SPECIFICATION Spec
 CONSTANTS
   Sizes = {0, 1, 513, 16384, 32769, 1200000}
+  Single = {63, 64, 16383, 16385}
   MaxChunks = 2
   Deltas = {0, 1, 2}
   Nets = {"perfect", "drop3", "dup", "reorder", "mix", "drop2"}
